@@ -617,13 +617,15 @@ impl DrawExecutor {
     }
 
     fn blit_screen_to_screen(&mut self, _write_mode: i32, from: Position, to: Position, dest: Position) {
-        let width = to.x - from.x;
-        let height = to.y - from.y;
+        // only positions whose source lies on the canvas can carry a pixel
+        let res = self.get_resolution();
+        let width = to.x.saturating_sub(from.x).min(res.width.saturating_sub(from.x));
+        let height = to.y.saturating_sub(from.y).min(res.height.saturating_sub(from.y));
 
-        for y in 0..height {
-            for x in 0..width {
+        for y in (-from.y).max(0)..height {
+            for x in (-from.x).max(0)..width {
                 let color = self.get_pixel(from.x + x, from.y + y);
-                self.set_pixel(dest.x + x, dest.y + y, color);
+                self.set_pixel(dest.x.saturating_add(x), dest.y.saturating_add(y), color);
             }
         }
     }
@@ -658,6 +660,10 @@ impl DrawExecutor {
     }
 
     fn blit_screen_to_memory(&mut self, _write_mode: i32, from: Position, to: Position) {
+        // the grabbed area ends at the canvas edge and starts at most one canvas size before it
+        let res = self.get_resolution();
+        let from = Position::new(from.x.clamp(-res.width, res.width), from.y.clamp(-res.height, res.height));
+        let to = Position::new(to.x.clamp(from.x, res.width), to.y.clamp(from.y, res.height));
         let width = to.x - from.x;
         let height = to.y - from.y;
 
